@@ -319,7 +319,7 @@ var _ = strings.Join
 
 // ADM: CalculateRealloc gives the origin back to the pool and must then admit the FULL new request, not the delta.
 func checkReallocAdmission(p *Prog, r *Result) {
-	r.min("ADM", 2)
+	r.min("ADM", 3)
 	F := p.Fn("resource/plugins/cpumem.Plugin.CalculateRealloc")
 	if F == nil {
 		r.undecided("ADM", "resource/plugins/cpumem.Plugin.CalculateRealloc", "", "not found")
@@ -384,6 +384,7 @@ func checkReallocAdmission(p *Prog, r *Result) {
 		r.undecided("ADM", F.Name+" / full request and pool", p.pos(F.Decl), "could not identify the request built as delta + origin, or the pool with the origin subtracted")
 		return
 	}
+	checkReallocPutBack(p, r, "ADM")
 	n := 0
 	for _, c := range F.calls(func(f *types.Func) bool {
 		nm := objName(f)
@@ -405,4 +406,86 @@ func checkReallocAdmission(p *Prog, r *Result) {
 			r.bad("ADM", key, p.pos(c), why)
 		}
 	}
+}
+
+// checkReallocPutBack: before re-planning, CalculateRealloc returns the WHOLE origin to the pool: the NodeResource subtracted
+// from the usage carries all four usage fields of the origin (CPU<-CPURequest, CPUMap, Memory<-MemoryRequest, NUMAMemory).
+// A field left out stays counted as used: the workload competes with itself for it (its own NUMA node can look full and
+// the re-plan moves it; or the admission refuses a change that fits).
+func checkReallocPutBack(p *Prog, r *Result, rule string) {
+	F := p.Fn("resource/plugins/cpumem.Plugin.CalculateRealloc")
+	if F == nil {
+		r.undecided(rule, "resource/plugins/cpumem.Plugin.CalculateRealloc / put-back", "", "not found")
+		return
+	}
+	key := F.Name + " / the whole origin (CPU, cores, memory, NUMA memory) is put back before re-planning"
+	var lit *ast.CompositeLit
+	var call *ast.CallExpr
+	F.inspectBody(func(n ast.Node) bool {
+		c, ok := n.(*ast.CallExpr)
+		if !ok || F.Callee(c) == nil || !strings.HasSuffix(objName(F.Callee(c)), "NodeResource).Sub") || len(c.Args) != 1 {
+			return true
+		}
+		sel, ok := unparen(c.Fun).(*ast.SelectorExpr)
+		if !ok || !strings.HasSuffix(exprStr(sel.X), ".Usage") {
+			return true
+		}
+		e := unparen(c.Args[0])
+		if u, ok := e.(*ast.UnaryExpr); ok {
+			e = unparen(u.X)
+		}
+		if cl, ok := e.(*ast.CompositeLit); ok {
+			lit, call = cl, c
+		}
+		return true
+	})
+	if lit == nil {
+		r.undecided(rule, key, p.pos(F.Decl), "no Usage.Sub(&NodeResource{…}) found")
+		return
+	}
+	want := map[string]string{"CPU": "CPURequest", "CPUMap": "CPUMap", "Memory": "MemoryRequest", "NUMAMemory": "NUMAMemory"}
+	got := map[string]string{}
+	var origin types.Object
+	why := ""
+	for _, el := range lit.Elts {
+		kv, ok := el.(*ast.KeyValueExpr)
+		if !ok {
+			continue
+		}
+		sel, ok := unparen(kv.Value).(*ast.SelectorExpr)
+		if !ok {
+			why = "field " + exprStr(kv.Key) + " of the put-back is `" + exprStr(kv.Value) + "`, not a field of the origin"
+			continue
+		}
+		if origin == nil {
+			origin = F.objOf(sel.X)
+		} else if F.objOf(sel.X) != origin {
+			why = "the put-back mixes fields of different objects"
+		}
+		got[exprStr(kv.Key)] = sel.Sel.Name
+	}
+	for f, src := range want {
+		if got[f] != src && why == "" {
+			if got[f] == "" {
+				why = "the put-back leaves out " + f + " (origin." + src + "): that part of the workload's own allocation stays counted as used while the new placement is computed — the workload competes with itself, its own cores or NUMA node can look full, and the re-plan moves it or is refused"
+			} else {
+				why = "the put-back takes " + f + " from origin." + got[f] + ", not origin." + src
+			}
+		}
+	}
+	// the put-back comes before the planner / admission calls
+	if why == "" {
+		F.inspectBody(func(n ast.Node) bool {
+			c, ok := n.(*ast.CallExpr)
+			if !ok || F.Callee(c) == nil {
+				return true
+			}
+			nm := objName(F.Callee(c))
+			if (nm == "resource/plugins/cpumem/schedule.GetCPUPlans" || nm == "resource/plugins/cpumem.Plugin.doAllocByMemory") && !F.dominates(F.find(call), F.find(c)) {
+				why = "the planner/admission call at " + p.pos(c) + " is not preceded by the put-back on every path"
+			}
+			return true
+		})
+	}
+	r.check2(why, rule, key, p.pos(call), "Usage.Sub(&NodeResource{CPU: origin.CPURequest, CPUMap: origin.CPUMap, Memory: origin.MemoryRequest, NUMAMemory: origin.NUMAMemory}) dominates the planner and the admission")
 }
